@@ -42,6 +42,79 @@ fn m(x: u128) -> u128 { x % (P as u128) }
 fn mulm(a: u128, b: u128) -> u128 { m(m(a) * m(b)) }
 fn powm(mut b: u128, mut e: u128) -> u128 { let mut r = 1u128; b = m(b); while e > 0 { if e & 1 == 1 { r = mulm(r, b); } b = mulm(b, b); e >>= 1; } r }
 
+// C14: the packed implementation selected by the build (<F as Packable>::Packing: width 1 in a scalar build, 4 with AVX2, 8 with AVX-512) agrees lane by
+// lane with the u128 oracle, on every pair of boundary representations placed in every lane
+#[test]
+fn c14_packed_ops() {
+    use crate::packable::Packable;
+    use crate::packed::PackedField;
+    type PF = <F as Packable>::Packing;
+    let w = PF::WIDTH;
+    let mut bad = Vec::new();
+    let mut cases = 0usize;
+    let lat = lattice();
+    let n = lat.len();
+    let val = |x: F| m(x.0 as u128);
+    let hex = |v: &[F]| v.iter().map(|x| format!("{:#x}", x.0)).collect::<Vec<_>>().join(",");
+    // operand vectors: lane k of vector (i, j, rot) holds the pair (lat[(i + k*rot) % n], lat[(j + k*(rot+1)) % n]); every pair appears in lane 0, and with
+    // different neighbours in the other lanes
+    for i in 0..n { for j in 0..n { for rot in [0usize, 1, 5] {
+        if w == 1 && rot > 0 { continue; }
+        let a: Vec<F> = (0..w).map(|k| F::from_noncanonical_u64(lat[(i + k * rot) % n])).collect();
+        let b: Vec<F> = (0..w).map(|k| F::from_noncanonical_u64(lat[(j + k * (rot + 1)) % n])).collect();
+        let (pa, pb) = (*PF::from_slice(&a), *PF::from_slice(&b));
+        let sc = b[0];
+        cases += 1;
+        let mut chk = |name: &str, got: PF, want: &dyn Fn(usize) -> u128| {
+            let g = got.as_slice();
+            if g.len() != w || (0..w).any(|k| val(g[k]) != want(k)) { bad.push(format!("packed (width {w}) {name}: a = [{}], b = [{}] -> [{}]", hex(&a), hex(&b), hex(g))); }
+        };
+        chk("a + b", pa + pb, &|k| m(val(a[k]) + val(b[k])));
+        chk("a - b", pa - pb, &|k| m(val(a[k]) + P as u128 - val(b[k])));
+        chk("a * b", pa * pb, &|k| mulm(val(a[k]), val(b[k])));
+        chk("-a", -pa, &|k| m(P as u128 - val(a[k])));
+        chk("a.square()", pa.square(), &|k| mulm(val(a[k]), val(a[k])));
+        chk("a.doubles()", pa.doubles(), &|k| m(2 * val(a[k])));
+        chk("a + scalar", pa + sc, &|k| m(val(a[k]) + val(sc)));
+        #[cfg(target_feature = "avx2")]
+        chk("scalar + a", <F as core::ops::Add<PF>>::add(sc, pa), &|k| m(val(a[k]) + val(sc)));
+        chk("a - scalar", pa - sc, &|k| m(val(a[k]) + P as u128 - val(sc)));
+        #[cfg(target_feature = "avx2")]
+        chk("scalar - a", <F as core::ops::Sub<PF>>::sub(sc, pa), &|k| m(val(sc) + P as u128 - val(a[k])));
+        chk("a * scalar", pa * sc, &|k| mulm(val(a[k]), val(sc)));
+        #[cfg(target_feature = "avx2")]
+        chk("scalar * a", <F as core::ops::Mul<PF>>::mul(sc, pa), &|k| mulm(val(a[k]), val(sc)));
+        if val(sc) != 0 { chk("a / scalar", pa / sc, &|k| mulm(val(a[k]), powm(val(sc), P as u128 - 2))); }
+        { let mut t = pa; t += pb; chk("a += b", t, &|k| m(val(a[k]) + val(b[k]))); }
+        { let mut t = pa; t -= pb; chk("a -= b", t, &|k| m(val(a[k]) + P as u128 - val(b[k]))); }
+        { let mut t = pa; t *= pb; chk("a *= b", t, &|k| mulm(val(a[k]), val(b[k]))); }
+        { let mut t = pa; t += sc; chk("a += scalar", t, &|k| m(val(a[k]) + val(sc))); }
+        { let mut t = pa; t -= sc; chk("a -= scalar", t, &|k| m(val(a[k]) + P as u128 - val(sc))); }
+        { let mut t = pa; t *= sc; chk("a *= scalar", t, &|k| mulm(val(a[k]), val(sc))); }
+        chk("from(scalar)", PF::from(sc), &|_| val(sc));
+        chk("sum [a, b, a]", [pa, pb, pa].into_iter().sum::<PF>(), &|k| m(2 * val(a[k]) + val(b[k])));
+        chk("product [a, b, a]", [pa, pb, pa].into_iter().product::<PF>(), &|k| mulm(mulm(val(a[k]), val(b[k])), val(a[k])));
+        // interleave: stack the vectors, cut into 2 x 2 matrices of blocks, transpose
+        let mut bl = 1usize;
+        while bl <= w {
+            let (r0, r1) = pa.interleave(pb, bl);
+            if bl == w { chk("interleave(width) first", r0, &|k| val(a[k])); chk("interleave(width) second", r1, &|k| val(b[k])); }
+            else {
+                let src0 = |k: usize| { let blk = k / bl; let off = k % bl; if blk % 2 == 0 { val(a[blk * bl + off]) } else { val(b[(blk - 1) * bl + off]) } };
+                let src1 = |k: usize| { let blk = k / bl; let off = k % bl; if blk % 2 == 0 { val(a[(blk + 1) * bl + off]) } else { val(b[blk * bl + off]) } };
+                chk(&format!("interleave(block {bl}) first"), r0, &src0); chk(&format!("interleave(block {bl}) second"), r1, &src1);
+            }
+            bl *= 2;
+        }
+    } } }
+    // pack_slice views: same memory, lane order preserved
+    { let v: Vec<F> = (0..4 * w).map(|k| F::from_canonical_u64(k as u64 * 3 + 1)).collect(); cases += 1;
+      let ps = PF::pack_slice(&v);
+      if ps.len() != 4 || (0..4 * w).any(|k| ps[k / w].as_slice()[k % w] != v[k]) { bad.push(format!("pack_slice (width {w}) does not preserve the element order")); }
+      if (0..w).any(|k| PF::ZEROS.as_slice()[k] != F::ZERO || PF::ONES.as_slice()[k] != F::ONE) { bad.push(format!("ZEROS / ONES (width {w}) wrong")); } }
+    finish("c14_packed_ops", cases, bad);
+}
+
 // C14: every operator returns the exact residue for every representation, and values produced by operators remain usable
 #[test]
 fn c14_base_field_ops() {
